@@ -70,6 +70,21 @@ func buildC02() {
 					dg{a4, enc(p, set, raw(300, body))})
 			}
 		}
+		// a template id that is in use is redefined to a degenerate definition INSIDE one message, between two
+		// of its data sets (anything remembered from the first data set must not survive the redefinition)
+		good := &wire.Template{ID: 300, Fields: []wire.Field{f1, f8}}
+		for _, dgn := range degs {
+			if dgn.t.Options {
+				continue
+			}
+			for _, l := range []int{9, 18, 64, 400} {
+				d1 := raw(300, g.Bytes(9*2))
+				add(p, fmt.Sprintf("%s data of template 300, then 300 redefined with %s, then %d more octets of 300, all in one message", p, dgn.name, l),
+					dg{a4, enc(p, tplSet(good))}, dg{a4, enc(p, d1, tplSet(dgn.t), raw(300, g.Bytes(l)))})
+				add(p, fmt.Sprintf("%s template 300, data, redefinition with %s, data: one message", p, dgn.name),
+					dg{a4, enc(p, tplSet(good), d1, tplSet(dgn.t), raw(300, g.Bytes(l)))})
+			}
+		}
 		// options template whose scope count exceeds the field count (ipfix) / odd option lengths (v9)
 		for sc := 0; sc <= 6; sc++ {
 			for fc := 0; fc <= 4; fc++ {
@@ -189,7 +204,7 @@ func famC02() family {
 }
 
 func allFamilies() []family {
-	return []family{famC02(), famTrunc(), famField(), famSetID(), famPktHdr(), famExtRouter(), famHistory(), famRandom(), famReplay()}
+	return []family{famC02(), famTrunc(), famField(), famSetID(), famPktHdr(), famExtRouter(), famHistory(), famRestart(), famRandom(), famReplay()}
 }
 
 // famReplay is the one-case family used by --replay: the child loads the case from the replay file.
